@@ -94,6 +94,28 @@ def judge_frame(case):
     return walk(r0, r1, new, [])
 
 
+def gen_history_frame(rng):
+    """d2 does not mention a.x (it writes the sibling a.y, possibly with a priority tag on the container): the competition between
+    d1 and d3 at a.x must come out as if d2 had not been there"""
+    T = ['', '!weak ', '!force ']
+    t1, t2, t3 = rng.choice(T), rng.choice(T), rng.choice(T)
+    d1 = '{a: {x: %s1, y: 2}, k: 0}' % t1 if rng.random() < 0.5 else '{a: %s{x: 1, y: 2}, k: 0}' % t1
+    d2 = '{a: %s{y: 3}}' % t2 if rng.random() < 0.7 else '{a: %s{y: 3, w: {u: 1}}, k: 1}' % t2
+    d3 = '{a: {x: %s9}}' % t3 if rng.random() < 0.5 else '{a: %s{x: 9}}' % t3
+    return dict(frame3=True, texts=[d1, d2, d3])
+
+
+def judge_history_frame(case):
+    d1, d2, d3 = case['texts']
+    k1, r1 = oracles.build_plain([d1, d2, d3])
+    k2, r2 = oracles.build_plain([d1, d3])
+    if k1 != 'ok' or k2 != 'ok':
+        return dict(reason='unexpected failure', with_d2=k1, without_d2=k2)
+    if base.typed(r1['a'].get('x')) != base.typed(r2['a'].get('x')):
+        return dict(reason='a stage that does not mention a.x (and deletes nothing) changed how a later stage merges at a.x', with_d2=repr(r1), without_d2=repr(r2))
+    return None
+
+
 def run(rep, tier, rng):
     rep.rule = ('merge histories (2-4 documents, all merge-control tags incl. !del/!merge/priorities/!new/!unsafe) built at depth 0 and wrapped under 1-3 keys drawn from the SAME '
                 'alphabet as the document keys; with/without an extra sibling key; frame check on 2-document histories. non-trivial = history with a deleting or prioritised node '
@@ -118,6 +140,8 @@ def run(rep, tier, rng):
     base.run_oracle(rep, 'C05', 'wrapped vs unwrapped build', wraps, judge_wrap, show=show)
     base.run_oracle(rep, 'C05', 'sibling independence', sibs, judge_sibling, show=show)
     base.run_oracle(rep, 'C05', 'frame: unmentioned paths unchanged', frames, judge_frame, show=show)
+    base.run_oracle(rep, 'C05', 'frame across a history: a stage that does not mention a path does not influence later merges at it',
+                    [gen_history_frame(rng) for _ in range(80 if tier == 'quick' else 1500)], judge_history_frame)
 
 
 def replay(data):
@@ -125,6 +149,10 @@ def replay(data):
     if 'input' in r:
         from ..reparse import parse_doc
         x = r['input']
+        if x.get('frame3'):
+            f = judge_history_frame(x)
+            print('replay:', 'property FAILS' if f else 'property holds', f or '')
+            return 1 if f else 0
         docs = [parse_doc(t) for t in x['docs']]
         if 'keys' in x:
             f = judge_wrap(dict(docs=docs, keys=x['keys']))
